@@ -41,7 +41,8 @@ Definition mfilter (m : str) (A : list route) : list route :=
   filter (fun r => is_root r || meth_ok r m) A.
 Definition det_all (T : list route) (ps : list str) : bool :=
   let A := pat_set T ps in forallb (fun m => det (mfilter m A) ps) (mclasses T).
-Definition ok (T : list route) (ps : list str) : bool := negb (shape ps) || det_all T ps.
+(* written with if: vm_compute is call-by-value, || would evaluate both sides *)
+Definition ok (T : list route) (ps : list str) : bool := if shape ps then det_all T ps else true.
 
 (* can some extension of ps still match? *)
 Fixpoint glob_pre (eps ps : list str) : bool :=
@@ -60,17 +61,19 @@ Definition bound (r : route) : N :=
   N.max (N.of_nat (length (ep_parts (ep r)))) (N.max (N.of_nat (length (split (ep r)))) (rpc r)).
 Definition nsat (T : list route) : N := fold_left N.max (map bound T) 0 + 2.
 Definition final (T : list route) (ps : list str) : bool :=
-  (nsat T <=? N.of_nat (length ps)) && det_all T ps.
+  if nsat T <=? N.of_nat (length ps) then det_all T ps else false.
 
 Fixpoint explore (T : list route) (n : nat) (ps : list str) : bool :=
-  ok T ps &&
-  (quiet T ps || match n with
-                 | O => final T ps
-                 | S n' => forallb (fun a => explore T n' (ps ++ [a])) (sigma T (length ps))
-                 end).
+  if ok T ps then
+    if quiet T ps then true
+    else match n with
+         | O => final T ps
+         | S n' => forallb (fun a => explore T n' (ps ++ [a])) (sigma T (length ps))
+         end
+  else false.
 
 Definition certificate (T : list route) : bool :=
-  fresh_ok T && negb (memS FRESHM (map meth T)) && explore T (N.to_nat (nsat T)) [].
+  if fresh_ok T && negb (memS FRESHM (map meth T)) then explore T (N.to_nat (nsat T)) [] else false.
 
 (* ------------------------------------------------------------------ small list facts *)
 Lemma memS_In x l : memS x l = true <-> In x l.
@@ -286,7 +289,7 @@ Lemma ok_abs T m ps :
   fresh_ok T = true -> memS FRESHM (map meth T) = false ->
   ok T (alphas T 0 ps) = true -> shape ps = true -> det (cands T m ps) ps = true.
 Proof.
-  intros F FM H Hs. unfold ok in H. rewrite shape_abs, Hs in H. cbn [negb orb] in H.
+  intros F FM H Hs. unfold ok in H. rewrite shape_abs, Hs in H.
   unfold det_all in H. cbv zeta in H. rewrite forallb_forall in H. specialize (H _ (mu_in T m)).
   assert (EP : pat_set T (alphas T 0 ps) = pat_set T ps).
   { unfold pat_set. apply filter_ext_in. intros r Hr. rewrite <- (pattern_abs T r ps F Hr). reflexivity. }
@@ -326,7 +329,7 @@ Qed.
 
 Lemma quiet_sound T ps : quiet T ps = true -> forall ext, ok T (ps ++ ext) = true.
 Proof.
-  intros Q ext. unfold ok. apply orb_true_iff. right. unfold det_all. cbv zeta.
+  intros Q ext. unfold ok. destruct (shape (ps ++ ext)); [|reflexivity]. unfold det_all. cbv zeta.
   apply forallb_forall. intros m Hm. apply det_short.
   unfold quiet in Q. cbv zeta in Q. rewrite forallb_forall in Q. specialize (Q m Hm).
   apply Nat.leb_le in Q. etransitivity; [|exact Q].
@@ -375,8 +378,9 @@ Qed.
 
 Lemma final_sound T ps : final T ps = true -> forall ext, ok T (ps ++ ext) = true.
 Proof.
-  intros Fn ext. unfold final in Fn. apply andb_prop in Fn as [L D]. apply N.leb_le in L.
-  unfold ok. apply orb_true_iff. right. unfold det_all in *. cbv zeta in *.
+  intros Fn ext. unfold final in Fn. destruct (N.leb_spec (nsat T) (N.of_nat (length ps))) as [L|L]; [|discriminate].
+  rename Fn into D.
+  unfold ok. destruct (shape (ps ++ ext)); [|reflexivity]. unfold det_all in *. cbv zeta in *.
   assert (EP : pat_set T (ps ++ ext) = pat_set T ps).
   { unfold pat_set. apply filter_ext_in. intros r Hr. f_equal.
     pose proof (bound_le T r Hr) as B. unfold bound in B.
@@ -397,11 +401,11 @@ Lemma explore_sound T : forall n ps, explore T n ps = true ->
   forall ext, abs_list T (length ps) ext -> ok T (ps ++ ext) = true.
 Proof.
   induction n as [|n IH]; intros ps E ext A; cbn [explore] in E;
-    apply andb_prop in E as [E1 E2]; apply orb_prop in E2.
-  - destruct ext as [|x t]; [rewrite app_nil_r; exact E1|].
-    destruct E2 as [Q|Fn]; [apply quiet_sound, Q|apply final_sound, Fn].
-  - destruct ext as [|x t]; [rewrite app_nil_r; exact E1|].
-    destruct E2 as [Q|Fa]; [apply quiet_sound, Q|].
+    destruct (ok T ps) eqn:E1; try discriminate; destruct (quiet T ps) eqn:Q.
+  - apply quiet_sound, Q.
+  - destruct ext as [|x t]; [rewrite app_nil_r; exact E1|]. apply final_sound, E.
+  - apply quiet_sound, Q.
+  - destruct ext as [|x t]; [rewrite app_nil_r; exact E1|]. rename E into Fa.
     cbn in A. destruct A as [Ax At]. rewrite forallb_forall in Fa. specialize (Fa x Ax).
     replace (ps ++ x :: t) with ((ps ++ [x]) ++ t) by (rewrite <- app_assoc; reflexivity).
     apply IH; [exact Fa|]. rewrite app_length. cbn. rewrite Nat.add_1_r. exact At.
@@ -447,7 +451,8 @@ Theorem certificate_sound T : certificate T = true ->
   forall m p, det (cands T (upper m) (split (norm_path p))) (split (norm_path p)) = true.
 Proof.
   intros C m p. unfold certificate in C.
-  apply andb_prop in C as [C E]. apply andb_prop in C as [F FM].
+  destruct (fresh_ok T && negb (memS FRESHM (map meth T))) eqn:C0; [|discriminate]. rename C into E.
+  apply andb_prop in C0 as [F FM].
   apply negb_true_iff in FM.
   apply ok_abs; [exact F|exact FM| |apply shape_norm].
   exact (explore_sound T _ [] E _ (abs_alphas T _ 0%nat)).
